@@ -857,16 +857,21 @@ class MasterSim(object):
             if app is None or not app.server:
                 continue
             server = self.master.servers.get(app.server)
-            if server is None or server.state is not scheduler.State.down:
+            if server is None or (
+                    server.state is not scheduler.State.down and
+                    server.name not in self.down_since):
                 continue
-            if app.data_retention_timeout:
+            if self.decl_apps[name]['retention']:
                 cands.append((name, server))
         if not cands:
             return
         name, server = cands[idx % len(cands)]
         app = self.master.cell.apps[name]
         _state, since = server.get_state()
-        target = since + app.data_retention_timeout + delta
+        if server.name in self.down_since:
+            # ground truth (when a master first saw it down), not the model
+            since = self.down_since[server.name][1]
+        target = since + self.decl_apps[name]['retention'] + delta
         now = self.clock.peek()
         if target > now:
             self.clock.advance(target - now)
